@@ -7,9 +7,15 @@ Texts == {RenderDep(r.dep, r.style, r.order) : r \in Renderings}
 \* degenerate architecture names (empty components) inside otherwise ordinary fields: accepted by the parser, so
 \* the round-trip law speaks about them
 foo == <<102, 111, 111>>
+\* a substvar followed by what may follow a package name (accepted by the parser in one way or another)
+sv == <<DOLLAR, LBRACE, 109, 58, 68, RBRACE>>                      \* ${m:D}
+SubstClauses == {sv \o c \o t : c \in {<<SP, LPAREN, GT, EQ, SP, 49, DOT, 48, RPAREN>>, <<LPAREN, EQ, SP, 50, COLON, 49, RPAREN>>, <<SP, LBRACK>> \o amd64 \o <<RBRACK>>,
+                                        <<SP, LT, 120, GT>>, <<COLON, 97, 110, 121>>, <<SP, LPAREN, GT, EQ, SP, 49, RPAREN, SP, LBRACK>> \o amd64 \o <<RBRACK>>},
+                                t \in {<<>>, <<SP, PIPE, SP>> \o foo, <<COMMA, SP>> \o foo}}
+                \cup {foo \o <<COMMA, SP>> \o sv \o <<SP, LPAREN, LT, LT, SP, 51, RPAREN>>}
 Degenerate == {foo \o <<SP, LBRACK, HYPHEN, HYPHEN, RBRACK>>, foo \o <<SP, LBRACK, HYPHEN, HYPHEN, SP>> \o amd64 \o <<RBRACK>>,
                foo \o <<COLON, HYPHEN, HYPHEN>>, foo \o <<SP, LBRACK, HYPHEN, RBRACK>>, foo \o <<SP, LBRACK, BANG, HYPHEN, HYPHEN, RBRACK>>,
-               foo \o <<SP, LBRACK>> \o amd64 \o <<HYPHEN, HYPHEN, RBRACK>>}
+               foo \o <<SP, LBRACK>> \o amd64 \o <<HYPHEN, HYPHEN, RBRACK>>} \cup SubstClauses
 DepVecs == {[k |-> Kind, text |-> t] : t \in Texts \cup Degenerate}
 
 \* ---- architecture names (C05) ------------------------------------------------
